@@ -329,6 +329,25 @@ def run(ctx):
             ctx.fail("cwd-lookalike:%s" % (dd[0] if dd else "exception"),
                      "same absolute arguments, different current directory (holding a stale same-named splicer file): %s differ" % dd[:4],
                      {"yaml": ytxt, "differing_files": dd[:8], "exceptions": [ex0, ex1]})
+        # the interpreter's optimisation level is environment too (PYTHONOPTIMIZE / -O strips assert statements and docstrings):
+        # same inputs, same bytes - checked on the library that carries user splicers and on two others
+        for lvl in ("1", "2"):
+            exo, tro = run_seq([strip(git)], env={"PYTHONOPTIMIZE": lvl}, cwd=edir)
+            ctx.count(1)
+            ctx.nontrivial(("optimize", lvl, "gauge"))
+            dd = diff_trees(tr0[0], tro[0])
+            if dd or ex0 != exo:
+                ctx.fail("environment:PYTHONOPTIMIZE:%s" % (dd[0] if dd else "exception"),
+                         "same inputs and arguments under PYTHONOPTIMIZE=%s: %s differ" % (lvl, dd[:4]),
+                         {"yaml": ytxt, "differing_files": dd[:8], "exceptions": [ex0, exo], "env": {"PYTHONOPTIMIZE": lvl}})
+            for it in items[:2]:
+                exo, tro = run_seq([strip(it)], env={"PYTHONOPTIMIZE": lvl})
+                ctx.count(1)
+                dd = diff_trees(alone[label(it)][1], tro[0])
+                if dd:
+                    ctx.fail("environment:PYTHONOPTIMIZE:%s:%s" % (label(it), dd[0]),
+                             "output of %s differs under PYTHONOPTIMIZE=%s: %s" % (label(it), lvl, dd[:4]),
+                             {"library": strip(it), "differing_files": dd[:8], "env": {"PYTHONOPTIMIZE": lvl}})
         if b"gauge_revision = 2" not in tr0[0].get("wrapfgauge.f", b""):
             ctx.note("cwd_lookalike_warning", "splicer from --path not found in the Fortran output (scenario lost its teeth)")
         # populated output directory: run B into a directory that already holds A's output
